@@ -1471,9 +1471,16 @@ return 1;""",
             if intent in ["inout", "out"]:
                 if not hidden:
                     # output variable must be a pointer
-                    build_tuples.append(
-                        self.intent_out(arg_typemap, intent_blk, fmt_arg)
-                    )
+                    ttt = self.intent_out(arg_typemap, intent_blk, fmt_arg)
+                    if (intent == "inout" and intent_blk.object_created
+                            and arg_typemap.PY_PyTypeObject
+                            and not intent_blk.parse_format):
+                        # The object is borrowed from args.
+                        # Returned by itself it needs a new reference.
+                        ttt = ttt._replace(blk0=util.Scope(
+                            PyStmts,
+                            post_call=[wformat("Py_INCREF({py_var});", fmt_arg)]))
+                    build_tuples.append(ttt)
 
             # Code to convert parsed values (C or Python) to C++.
             allocate_local_blk = self.add_stmt_capsule(arg, intent_blk, fmt_arg)
@@ -4543,6 +4550,7 @@ py_statements = [
             "{c_const}{cxx_type} * {cxx_var} ="
             "\t {py_var} ? {py_var}->{PY_type_obj} : {nullptr};"
         ],
+        object_created=True,
     ),
     dict(
         name="py_shadow_*_out",
@@ -4596,6 +4604,11 @@ py_statements = [
     dict(
         name="py_shadow_&_in",
         base="py_shadow_*_in",
+        arg_call=["*{cxx_var}"],
+    ),
+    dict(
+        name="py_shadow_&_inout",
+        base="py_shadow_*_inout",
         arg_call=["*{cxx_var}"],
     ),
     
